@@ -101,7 +101,7 @@ C("C17", "TestC17", P(400, env={"VERIF_C17_MAXLEN": 4}), P(1500, 16, 2400, env={
   rule="(a) segment chooser as a pure function: exhaustive over all size vectors of length 0..L over {1,2,3,4,7,8,9,15,16,17,100,1000} (L=4 quick, 6 thorough) plus rapid vectors up to length 40 with sizes up to 2^56; "
        "validity predicate: nil iff no two adjacent sizes share floor(log2), else a range of >=2 tables inside the vector; "
        "(b) every Add/AutoCompact changes the table list by at most one replacement of a contiguous run of >=2 tables by <=1 table; "
-       "(c) single-writer workloads of N identical-size transactions (N<=300 quick; thorough: N<=1500, and one case in 25 with N in 1500..5000; payload shape and configuration drawn): depth <= 2*log2(n) after each Add (n>=4), EntriesWritten <= N*log2(N)*entries per transaction, asserted while all transaction tables had the same byte size; "
+       "(c) single-writer workloads of N identical-size transactions (N<=300 quick; thorough: N<=1500, and one case in 25 with N in 1500..5000; payload shape and configuration drawn; names carry their counter in front of the padding, or - one workload in three - as their last eight bytes, so that all names share a long prefix which key prefix compression removes in merged tables): depth <= 2*log2(n) after each Add (n>=4), EntriesWritten <= N*log2(N)*entries per transaction, asserted while all transaction tables had the same byte size; "
        "non-trivial = vector with two adjacent sizes of one class / workload with N>=64; distinct = enumerated vectors are distinct by construction, generated cases by hash",
   technique="bounded exhaustive enumeration + property-based testing (rapid): validity predicate for the chooser, bounds over generated workloads",
   level_text="Exhaustive for short size vectors over representative classes; generated search for longer vectors and for workloads. " + BOUNDED,
